@@ -13,5 +13,5 @@ CONSTANTS
   Active = {"r1", "r2", "w"}
   Bin = FALSE
   Acts = {"write", "read", "readblock", "seek", "tell", "refresh", "close", "reopen", "delete", "tick"}
-  Defects = {"overwrite", "refresh_skip"}
+  Defects = {"overwrite", "refresh_skip", "frac_ts"}
 ACTION_CONSTRAINT Emit
